@@ -178,6 +178,15 @@ class Iter:
         return STOP
 
 
+class Stream(Iter):
+    """A token stream: an iterator with push-back (tokens.push(tok) makes tok the next item)."""
+    def __repr__(self):
+        return 'Stream(%r@%d)' % (self.items, self.pos)
+
+    def push(self, item):
+        self.items.insert(self.pos, item)
+
+
 class CountIter(Iter):
     """itertools.count(start): an unbounded iterator (loops over it are cut by the unrolling limit)."""
     def __init__(self, start=0, step=1):
@@ -506,6 +515,10 @@ class Interp:
             if isinstance(v, (tuple, list)) and len(v) == len(t.elts) and not any(isinstance(e, ast.Starred) for e in t.elts):
                 for e, x in zip(t.elts, v):
                     self.assign(e, x, s, node, quiet)
+            elif self.precise_exc and (v is None or (isinstance(v, (int, float, bool)) and not isinstance(v, Sym))):
+                s.env['__exc'] = 'TypeError'          # unpacking something that is not iterable
+            elif self.precise_exc and isinstance(v, (tuple, list)) and is_concrete(v) and not any(isinstance(e, ast.Starred) for e in t.elts):
+                s.env['__exc'] = 'ValueError'         # wrong number of values to unpack
             else:
                 for e in t.elts:
                     self.assign(e.value if isinstance(e, ast.Starred) else e, TOP, s, node, quiet)
@@ -1588,6 +1601,9 @@ class Interp:
         if isinstance(base, M.External) and base.name in ('re', 'operator', 'os', 'os.path', 'glob', 'posixpath', 'string', 'itertools') and not attr.startswith('_') \
            and not (base.name == 'string' and attr != 'Template'):
             return M.External('%s.%s' % (base.name, attr))
+        if isinstance(base, M.External) and base.name == 'sys' and attr == 'maxsize':
+            import sys as _sys
+            return _sys.maxsize
         if isinstance(base, M.External) and base.name == 'string' and attr in ('digits', 'ascii_letters', 'ascii_lowercase', 'ascii_uppercase',
                                                                               'hexdigits', 'octdigits', 'punctuation', 'whitespace'):
             import string as _string
@@ -1984,6 +2000,9 @@ class Interp:
         fval = None
         if isinstance(n.func, ast.Attribute):
             base = self.ev(n.func.value, s)
+            if isinstance(base, Stream) and n.func.attr == 'push' and len(args) == 1 and not kwargs:
+                base.push(args[0])
+                return None
             fval = self.getattr(base, n.func.attr, n.func, s) if not (fname in s.env) else s.env[fname]
         elif isinstance(n.func, ast.Name):
             fval = self.ev_Name(n.func, s)
